@@ -386,7 +386,9 @@ def project_events(events, ids):
       out['events'].append({'e': 'ctl', 't': sorted(index[i] for i in f['trt']), 'c': sorted(index[i] for i in f['ctl']),
                             'v': f['verdict']})
     elif index is not None and name.startswith('greedy_'):
-      out['events'].append({'e': name[7:], 'k': f['k'], 't': sorted(index[i] for i in f.get('trt', [])),
+      short = {'greedy_match_move': 'move', 'greedy_match_freeze': 'freeze', 'greedy_augment': 'augment',
+               'greedy_keep': 'keep'}[name]
+      out['events'].append({'e': short, 'k': f['k'], 't': sorted(index[i] for i in f.get('trt', [])),
                             'c': sorted(index[i] for i in f.get('ctl', [])), 'v': ''})
   return out
 
@@ -477,6 +479,9 @@ def to_tla(inst):
     rank[code - 1] = r
     bok[code - 1] = bool(tab['budget_ok'][code])
   opt = [tab['opt_class'][m] for m in range(1, 2 ** n)]
+  beats = [False] * (3 ** n)
+  for code, sc in tab['scores_greedy'].items():
+    beats[code - 1] = bool(tuple(sc) > (0, 0, 0, 0, 0, 0))
 
   def res(r):
     ds = [{'t': d['t'], 'c': d['c'], 'yMasks': d['yMasks'], 'xMasks': d['xMasks'], 'scoreCodes': d['scoreCodes'],
@@ -486,7 +491,7 @@ def to_tla(inst):
           'cr': list(inst['cr']), 'gtol': list(inst['gtol']), 'vtol': list(inst['vtol']), 'share': list(inst['share']),
           'hasBudget': inst['budget'] is not None, 'k': inst['par']['n_designs'], 'nmax': inst['nmax'],
           'overBudget': tab['over_budget'], 'impactOrder': tab['impact_order'], 'rank': rank, 'budgetOK': bok,
-          'opt': opt, 'exh': res(inst['exh']), 'greedy': res(inst['greedy'])}
+          'opt': opt, 'beatsZero': beats, 'exh': res(inst['exh']), 'greedy': res(inst['greedy'])}
 
 
 def _tlc_chunk(args):
@@ -769,31 +774,36 @@ def count_of(inst):
 
 
 def _step_chunk(args):
-  idx, label, records = args
-  rundir = tlc.run_dir('%s_step%02d' % (label, idx))
+  idx, label, records, module = args
+  rundir = tlc.run_dir('%s_%s%02d' % (label, module, idx))
   path = os.path.join(rundir, 'instances.json')
   with open(path, 'w') as f:
     json.dump({'instances': records}, f)
-  r = tlc.run_tlc('MMStepTrace', TRACE_CFG, rundir, workers=1, env={'TRACE_FILE': path}, timeout=3000,
+  r = tlc.run_tlc(module, TRACE_CFG, rundir, workers=1, env={'TRACE_FILE': path}, timeout=3000,
                   java_opts=['-Xmx3g', '-XX:+UseSerialGC', '-XX:TieredStopAtLevel=1'])
   if r.returncode != 0:
-    return {'error': 'TLC failed on MMStepTrace chunk %d (exit %s): %s' % (idx, r.returncode, r.stdout[-1500:])}
+    return {'error': 'TLC failed on %s chunk %d (exit %s): %s' % (module, idx, r.returncode, r.stdout[-1500:])}
   return {'verdicts': [v for v in r.json_lines() if isinstance(v, dict) and 'fails' in v],
           'distinct': r.distinct, 'generated': r.generated}
 
 
-def judge_steps(res, insts, label, nchunks=8):
-  """MMStepTrace over the recorded hook events of the exhaustive search. Returns id -> verdict."""
+def judge_steps(res, insts, label, nchunks=8, module='MMStepTrace'):
+  """MMStepTrace / MMStepTraceG over the recorded hook events of a search. Returns id -> verdict."""
   records = []
   for i in insts:
     rec = to_tla(i)
-    ev = i.get('events_exh') or {'started': False, 'events': []}
-    rec['events'] = [{'e': e['e'], 't': e['t'], 'c': e['c'], 'v': e['v']} for e in ev['events']]
-    rec['started'] = bool(ev['started'])
-    rec['count'] = i.get('count', -1)
+    if module == 'MMStepTrace':
+      ev = i.get('events_exh') or {'started': False, 'events': []}
+      rec['events'] = [{'e': e['e'], 't': e['t'], 'c': e['c'], 'v': e['v']} for e in ev['events']]
+      rec['started'] = bool(ev['started'])
+      rec['count'] = i.get('count', -1)
+    else:
+      ev = i.get('events_greedy') or {'started': False, 'events': []}
+      rec['gevents'] = [{'e': e['e'], 'k': e.get('k', 0), 't': e['t'], 'c': e['c'], 'v': e['v']} for e in ev['events']]
     records.append(rec)
   nchunks = max(1, min(nchunks, len(records) // 12 or 1))
-  outs = par_mod.pmap(_step_chunk, [(c, label, records[c::nchunks]) for c in range(nchunks)], nproc=nchunks, chunksize=1)
+  outs = par_mod.pmap(_step_chunk, [(c, label, records[c::nchunks], module) for c in range(nchunks)], nproc=nchunks,
+                      chunksize=1)
   verdicts = {}
   for o in outs:
     if 'error' in o:
@@ -802,10 +812,10 @@ def judge_steps(res, insts, label, nchunks=8):
     res.transitions += o['generated']
     for v in o['verdicts']:
       verdicts[v['id']] = v
-  res.tlc_runs.append({'label': 'MMStepTrace.' + label, 'chunks': nchunks, 'instances': len(records)})
+  res.tlc_runs.append({'label': module + '.' + label, 'chunks': nchunks, 'instances': len(records)})
   missing = [i['id'] for i in insts if i['id'] not in verdicts]
   if missing:
-    raise tlc.MachineryError('MMStepTrace produced no verdict for instances %r' % missing[:5])
+    raise tlc.MachineryError('%s produced no verdict for instances %r' % (module, missing[:5]))
   return verdicts
 
 
@@ -814,22 +824,26 @@ def _with_count(inst):
   return inst
 
 
-def run_step_validation(res, insts, owner):
-  """Step-level binding of MMImplX: drift is a note; the C11 clauses are violations when owner is C11."""
-  solo = [i for i in insts if i.get('partner') is None and not i.get('is_partner') and 'events_exh' in i]
+def run_step_validation(res, insts, owner, module='MMStepTrace'):
+  """Step-level binding of MMImplX (module MMStepTrace) / MMImplG (module MMStepTraceG): drift is a note; the C11
+  clauses are violations when owner is C11."""
+  key = 'events_exh' if module == 'MMStepTrace' else 'events_greedy'
+  what = 'exhaustive_search()' if module == 'MMStepTrace' else 'greedy_search()'
+  solo = [i for i in insts if i.get('partner') is None and not i.get('is_partner') and key in i]
   if owner == 'C11':
     solo = par_mod.pmap(_with_count, solo, chunksize=1)
-  verdicts = judge_steps(res, solo, owner)
+  verdicts = judge_steps(res, solo, owner, module=module)
   drift = {}
   events = 0
   for inst in solo:
     v = verdicts[inst['id']]
     events += v['facts']['events']
     for c in v['fails']:
-      if c.startswith('STEP:'):
+      if c.startswith('STEP'):
         drift[c] = drift.get(c, 0) + 1
         if len(res.notes) < 40:
-          res.note('NOTE drift instance %d: the recorded steps of exhaustive_search() are not steps of MMImplX (%s)' % (inst['id'], c))
+          res.note('NOTE drift instance %d: the recorded steps of %s are not steps of the implementation-shaped model (%s)' % (
+              inst['id'], what, c))
       elif c.startswith(owner + ':'):
         res.violate(c.split(':', 1)[1], {'kind': 'steps', 'instance': public(inst), 'count': inst.get('count', -1),
                                          'evaluated': v['facts']['evaluated']},
@@ -837,7 +851,7 @@ def run_step_validation(res, insts, owner):
                         c, inst.get('count', -1), v['facts']['evaluated']))
   res.extra['step_traces_validated'] = res.extra.get('step_traces_validated', 0) + len(solo)
   res.extra['step_events_validated'] = res.extra.get('step_events_validated', 0) + events
-  res.extra['step_drift'] = drift
+  res.extra.setdefault('step_drift', {}).update(drift)
   res.traces += len(solo)
   if solo and events == 0:
     raise tlc.MachineryError('no hook events were recorded: is GOOGLE_MATCHED_MARKETS_VERIF=1 set and the hook commit present?')
